@@ -47,7 +47,7 @@ def refuse(why, node=None):
 # ------------------------------------------------------------------------------------ patterns
 def pmatch(p, n, b):
     """structural match of pattern AST p against node n; Names starting with '_' are metavariables"""
-    if isinstance(p, ast.Name) and p.id.startswith('_'):
+    if isinstance(p, ast.Name) and p.id.startswith('_') and len(p.id) > 1 and not p.id.endswith('__'):
         if p.id in b:
             return ast.dump(b[p.id]) == ast.dump(n)
         b[p.id] = n
@@ -199,6 +199,9 @@ class FnTranslator:
             try:
                 guards, subst, ok = [], {}, True
                 for mv, sub in b.items():
+                    if pat.types.get(mv) == '*':         # any expression, not translated (its meaning is the template's)
+                        subst[mv] = ''
+                        continue
                     g, t, ty = self.tr(sub, env)
                     want = pat.types.get(mv)
                     if want is not None and ty != want:
@@ -214,6 +217,12 @@ class FnTranslator:
             except Refuse:
                 continue
             term = pat.template.format(**subst)
+            if pat.ty.startswith('opt:'):
+                # a mapped call that can raise: the template is an option, None = the named exception
+                _, cls, rty = pat.ty.split(':', 2)
+                self.err(cls, n)
+                b2 = self.fresh('o')
+                return guards + [('opt', b2, term, cls)], b2, rty
             if pat.ty.startswith('res '):
                 # a call of another translated function (mapped to ITS model): propagate its error
                 b2 = self.fresh('r')
@@ -228,6 +237,8 @@ class FnTranslator:
             b = self.fresh('n')
             self.err('TypeError', n)
             return g + [('opt', b, t, 'TypeError')], b, 'Z'
+        if ty == 'nat' and t is not None:
+            return g, '(Z.of_nat %s)' % t, 'Z'
         if ty != 'Z' or t is None:
             refuse('integer expected, got %s: %s' % (ty, ast.unparse(n)), n)
         return g, t, ty
@@ -271,6 +282,14 @@ class FnTranslator:
             refuse('unary operator', n)
         if isinstance(n, ast.BinOp):
             ops = {ast.Add: '+', ast.Sub: '-', ast.Mult: '*'}
+            if isinstance(n.op, ast.Add):
+                try:
+                    gl, tl, tyl = self.tr(n.left, env)
+                    gr, tr_, tyr = self.tr(n.right, env)
+                except Refuse:
+                    tyl = tyr = ''
+                if tyl.startswith('list ') and tyl == tyr and tl is not None and tr_ is not None:
+                    return gl + gr, '(%s ++ %s)' % (tl, tr_), tyl
             gl, tl, _ = self.num(n.left, env)
             gr, tr_, _ = self.num(n.right, env)
             if type(n.op) in ops:
@@ -370,6 +389,22 @@ class FnTranslator:
                 ge_g, ge_t, ge_ty = self.num(ge.elt, env2)
                 self.pure(ge_g, ge.elt)
                 return g, '(fold_left (fun acc__ %s => acc__ + %s) %s 0)' % (x, ge_t, t), 'Z'
+            if isinstance(n.func, ast.Name) and n.func.id == 'max' and len(n.args) == 1 and not n.keywords \
+                    and isinstance(n.args[0], ast.GeneratorExp) and 'max' not in self.locals:
+                ge = n.args[0]
+                if len(ge.generators) != 1 or ge.generators[0].ifs or ge.generators[0].is_async \
+                        or not isinstance(ge.generators[0].target, ast.Name):
+                    refuse('generator expression shape', n)
+                g, t, ty = self.tr(ge.generators[0].iter, env)
+                if not ty.startswith('list ') or t is None:
+                    refuse('max over a non-list', n)
+                x = self.mangle(ge.generators[0].target.id)
+                env2 = env.bind(ge.generators[0].target.id, x, ty[5:])
+                ge_g, ge_t, ge_ty = self.num(ge.elt, env2)
+                self.pure(ge_g, ge.elt)
+                self.err('ValueError', n)          # max() of an empty sequence
+                b = self.fresh('m')
+                return g + [('opt', b, 'py_max_map (fun %s => %s) %s' % (x, ge_t, t), 'ValueError')], b, 'Z'
             refuse('call %s' % ast.unparse(n.func), n)
         if isinstance(n, ast.List) and not n.elts:
             refuse('empty list literal without a declared type', n)
@@ -407,6 +442,8 @@ class FnTranslator:
         g, t, ty = self.tr(test, env)
         if ty in self.truthy and t is not None:
             t, ty = self.truthy[ty].format(t), 'bool'
+        elif ty.startswith('list ') and t is not None:
+            t, ty = '(match %s with [] => false | _ :: _ => true end)' % t, 'bool'
         if ty != 'bool':
             refuse('condition of type %s (truthiness is outside the subset): %s' % (ty, ast.unparse(test)), test)
         return self.wrap(g, env, ctx, lambda e: '(if %s then %s else %s)' % (t, kt(e), kf(e)))
@@ -446,7 +483,7 @@ class FnTranslator:
     def tuple_ty(self, tys):
         if not tys:
             return 'unit'
-        return coq_ty(tys[0]) if len(tys) == 1 else '(%s)' % ' * '.join(coq_ty(t) for t in tys)
+        return '(%s)' % coq_ty(tys[0]) if len(tys) == 1 else '(%s)' % ' * '.join(coq_ty(t) for t in tys)
 
     def loop_common(self, s, env, body_nodes):
         """state variables, closure variables and the environment at the head of the loop body"""
@@ -524,6 +561,12 @@ class FnTranslator:
                 ast.fix_missing_locations(value)
             if not isinstance(target, ast.Name):
                 refuse('assignment to a non-local target %s' % ast.unparse(target), s)
+            if isinstance(s, ast.Assign) and isinstance(value, ast.IfExp):
+                # x = a if c else b   ==   if c: x = a  else: x = b
+                mk = lambda v: ast.copy_location(ast.Assign(targets=[ast.Name(id=target.id, ctx=ast.Store())], value=v, lineno=s.lineno), s)
+                st = ast.copy_location(ast.If(test=value.test, body=[mk(value.body)], orelse=[mk(value.orelse)]), s)
+                ast.fix_missing_locations(st)
+                return self.block([st] + list(rest), env, ctx, k)
             x = target.id
             if x == 'self':
                 refuse('assignment to self', s)
@@ -550,10 +593,22 @@ class FnTranslator:
         if isinstance(s, ast.Return):
             if s.value is None:
                 refuse('bare return', s)
+            names = lambda e: {v: d['coq'] for v, d in e.vars.items() if d['coq'] and v.isidentifier()}
+            if isinstance(s.value, ast.Constant) and s.value.value is None:
+                if 'ok_none' not in self.cfg:
+                    refuse('return None', s)
+                return ctx.ret(self.cfg['ok_none'].format(**names(env)))
+            if isinstance(s.value, ast.BoolOp) and self.ret_ty == 'bool':
+                try:
+                    self.tr(s.value, env)
+                except Refuse:
+                    # an operand that can raise behind a short-circuit: return (if X then True else False)
+                    return self.cond(s.value, env, ctx, lambda e: ctx.ret(self.ok.format('true', **names(e))),
+                                     lambda e: ctx.ret(self.ok.format('false', **names(e))))
             g, t, ty = self.tr(s.value, env)
             if ty != self.ret_ty or t is None:
                 refuse('return value of type %s (expected %s)' % (ty, self.ret_ty), s)
-            return self.wrap(g, env, ctx, lambda e: ctx.ret(self.ok.format(t)))
+            return self.wrap(g, env, ctx, lambda e: ctx.ret(self.ok.format(t, **names(e))))
         if isinstance(s, ast.Raise):
             return ctx.ret(self.raise_term(s))
         if isinstance(s, ast.Break):
@@ -611,10 +666,17 @@ class FnTranslator:
     def for_loop(self, s, env, ctx, krest):
         if s.orelse:
             refuse('for ... else', s)
-        if not isinstance(s.target, ast.Name):
-            refuse('tuple loop target', s)
-        x = s.target.id
         it = s.iter
+        ix = None                                  # `for i, x in enumerate(L)`: i is an implicit counter from 0
+        if isinstance(s.target, ast.Tuple) and len(s.target.elts) == 2 and all(isinstance(e, ast.Name) for e in s.target.elts) \
+                and isinstance(it, ast.Call) and isinstance(it.func, ast.Name) and it.func.id == 'enumerate' \
+                and len(it.args) == 1 and not it.keywords and 'enumerate' not in self.locals:
+            ix, target, it = s.target.elts[0].id, s.target.elts[1], it.args[0]
+        else:
+            target = s.target
+        if not isinstance(target, ast.Name):
+            refuse('tuple loop target', s)
+        x = target.id
         rev = False
         if isinstance(it, ast.Call) and isinstance(it.func, ast.Name) and it.func.id == 'reversed' and len(it.args) == 1 \
                 and not it.keywords and 'reversed' not in self.locals:
@@ -623,15 +685,21 @@ class FnTranslator:
         if not lty.startswith('list ') or lt is None:
             refuse('for over a non-list: %s' % ast.unparse(s.iter), s)
         ety = lty[5:]
-        if x in self.assigned(s.body):
+        if x in self.assigned(s.body) or (ix is not None and (ix in self.assigned(s.body) or ix == x)):
             refuse('loop variable assigned in the body', s)
         state, body_locals, closure, benv = self.loop_common(s, env, s.body)
-        if x in state:
-            state.remove(x)
+        for v in (x, ix):
+            if v in state:
+                state.remove(v)
+            if v in closure:
+                closure.remove(v)
         self.ninst += 1
         lname = '@L%d@' % self.ninst
         xc = self.mangle(x)
         benv = benv.bind(x, xc, ety)
+        ixc = self.mangle(ix) if ix is not None else None
+        if ix is not None:
+            benv = benv.bind(ix, ixc, 'Z')
         st_formal = self.state_of(benv, state)
         cl_formal = [(self.mangle(v) if env.vars[v]['coq'] == self.mangle(v) else env.vars[v]['coq'], env.vars[v]['ty']) for v in closure]
         S = self.tuple_ty([t for _, t in st_formal])
@@ -642,21 +710,22 @@ class FnTranslator:
             return ' '.join(e.vars[v]['coq'] for v in state)
         lctx = Ctx(ret=lambda r: '(Done %s)' % r,
                    brk=lambda e: '(Continue %s)' % st_tuple(e),
-                   cont=lambda e: ('(%s t__ %s)' % (call_prefix, st_args(e))).replace(' )', ')'))
+                   cont=lambda e: ('(%s t__ %s%s)' % (call_prefix, '(%s + 1) ' % ixc if ix is not None else '', st_args(e))).replace(' )', ')'))
         body = self.block(s.body, benv, lctx, lctx.cont)
-        fix = 'Fixpoint %s %s%s (l__ : list %s)%s {struct l__} : lres %s (%s) :=\n  match l__ with\n  | [] => Continue %s\n  | %s :: t__ =>\n      %s\n  end.' % (
+        fix = 'Fixpoint %s %s%s (l__ : list %s)%s%s {struct l__} : lres %s (%s) :=\n  match l__ with\n  | [] => Continue %s\n  | %s :: t__ =>\n      %s\n  end.' % (
             lname, self.formal_args(),
             ''.join(' (%s : %s)' % (c, coq_ty(t)) for c, t in cl_formal),
-            coq_ty(ety),
+            coq_ty(ety), ' (%s : Z)' % ixc if ix is not None else '',
             ''.join(' (%s : %s)' % (c, coq_ty(t)) for c, t in st_formal),
             S, self.res_ty, st_tuple(benv), xc, pretty(body, 6))
         real = self.emit_loop(lname, fix)
         call_prefix = call_prefix.replace(lname, real)
-        after = self.after_loop_env(env, state, body_locals, extra_maybe=[x])
+        maybe = [x] + ([ix] if ix is not None else [])
         pat = self.tuple_term([self.mangle(v) for v in state]) if state else '_'
         lterm = '(rev %s)' % lt if rev else lt
-        return self.wrap(g, env, ctx, lambda e: '(match %s %s %s with Done r__ => %s | Continue %s => %s end)' % (
-            call_prefix, lterm, st_args(e), ctx.ret('r__'), pat, krest(self.after_loop_env(e, state, body_locals, [x]))))
+        return self.wrap(g, env, ctx, lambda e: '(match %s %s %s%s with Done r__ => %s | Continue %s => %s end)' % (
+            call_prefix, lterm, '0 ' if ix is not None else '', st_args(e), ctx.ret('r__'), pat,
+            krest(self.after_loop_env(e, state, body_locals, maybe))))
 
     def while_loop(self, s, env, ctx, krest):
         if s.orelse:
@@ -770,7 +839,7 @@ class FnTranslator:
     # -- whole function
     def translate(self):
         fn = self.fn
-        if fn.decorator_list:
+        if [ast.unparse(d) for d in fn.decorator_list] not in ([], self.cfg.get('decorators', [])):
             refuse('decorated function', fn)
         a = fn.args
         if a.vararg or a.kwarg or a.posonlyargs:
